@@ -113,7 +113,7 @@ CHECKS.update({
         'vm_compute proves an all-false verdict for each, hence arguments are bit-for-bit unchanged for every view/copy oracle; plot figures contain every given row exactly once under the right label (Permutation proof over a model of px.scatter). '
         'Tie: extraction + dynamic correspondence (every entry point called twice with deep-snapshotted arguments of every container kind; observed mutation verdict = model verdict; figures vs Model.Plot).',
    note=TB + 'the extractor and its numpy/pandas alias table are trusted (validated by the verdict correspondence); plotly modelled as one trace per colour value; callbacks assumed not to write their arguments.',
-   technique='Coq-proved sound effect analysis on AST-extracted programs; snapshot-based dynamic correspondence',
+   technique='Coq-proved sound effect analysis on AST-extracted programs; scatter/compare pipeline generated from the AST with bridge theorems to Model.Plot (C20_bridge_*); snapshot-based dynamic correspondence',
    ref='DESIGN.md section 7, C20'),
 })
 CHECKS.update({
@@ -143,8 +143,8 @@ CHECKS.update({
         '(full for every family except GaussianKDE whose cached sample size refutes it, with witness), every query and sample of an unfitted model raises NotFittedError and touches no generator (full for the bivariate classes since the F23 fix; vines since F30), multivariate validation leaves the state unchanged, get_instance returns a fresh configured object, '
         'definition-before-use of np.empty cells in vines (refuted with witness); AST-generated facts (store_args classes, validated fits, check_fit-first methods, guard shapes, fit writes) decided by vm_compute. '
         'Tie: random and scripted fit/query histories on the real classes vs vm_compute of the machine over captured oracle tables; refit-vs-fresh and misuse oracles on every class incl. vines.',
-   note=TB + 'Model.Lifecycle is hand-written (correspondence); scipy fits/optimisers are oracle tables captured per run; datasets are abstracted to (identity, constant?, range, size).',
-   technique='Coq induction over fit histories on hand-written state machines; AST facts; history correspondence',
+   note=TB + 'Model.Lifecycle is hand-written (correspondence) except the control skeleton of Univariate/ScipyModel (check_fit, constant handling, ScipyModel.fit, _set_params, the five queries, to_dict/from_dict), which tools/vf/unictlgen.py generates from the AST and Props/C19.v proves equal to it; scipy fits/optimisers are oracle tables captured per run; datasets are abstracted to (identity, constant?, range, size).',
+   technique='Coq induction over fit histories on hand-written state machines; control skeleton of the univariate base classes generated from the AST with bridge theorems (C19_bridge_*); AST facts; history correspondence',
    ref='DESIGN.md section 7, C19'),
 })
 CHECKS.update({
